@@ -62,6 +62,8 @@ def c06(chk, thorough):
     sliced = {ent for (_, _, _, ent, _) in slices.dispatch_sites(prog)}
     threads.t4(chk, prog, exempt_entries=sliced)
     chk.floor('T4.argument-privacy', 8)
+    threads.t6(chk, prog)
+    chk.floor('T6.fresh-accumulators', 8)
     if thorough:
         from . import irscan
         irscan.cross_check(chk, prog, sorted(prog.units))
@@ -184,6 +186,8 @@ def c08(chk, thorough):
     offsets.run(chk, prog)
     offsets.dead_input(chk, prog, ['LDAMulticlassStatistics', 'LDAError', 'LDAPrediction', 'LDA'])
     offsets.overwritten_store(chk, prog, ['LDAMulticlassStatistics', 'LDAError', 'LDAPrediction', 'LDA'])
+    offsets.argmax_rule(chk, prog, ['LDAPrediction'])
+    chk.floor('OF.argmax', 1)
     chk.floor('OF.compare', 6)
     chk.floor('OF.label-sink', 1)
     chk.floor('OF.index-subscript', 8)
@@ -299,6 +303,10 @@ def c12(chk, thorough):
     prog = load_program(chk, ['vector.c', 'list.c', 'matrix.c', 'tensor.c', 'memwrapper.c', 'numeric.c', 'algebra.c'])
     contractmode.run(chk, prog, contractmode.C12_FUNCS, dom=4 if thorough else 3)
     guards.pivot_guard(chk, prog, {'matrix.c': ['MatrixInversion'], 'algebra.c': ['SolveLSE']})
+    import os
+    from .report import VERIF
+    guards.magnitude_rule(chk, prog, {'matrix.c': contractmode.C12_FUNCS['matrix.c'], 'algebra.c': contractmode.C12_FUNCS['algebra.c']},
+                          control=os.path.join(VERIF, 'controls', 'magnitude.c'))
     chk.floor('K.bounds', 100)
     chk.floor('G.pivot', 2)
 
